@@ -3,6 +3,9 @@
 import json, os
 V = "/verif"
 claims = json.load(open(os.path.join(V, "tools", "claims.json")))
+import glob
+for f in sorted(glob.glob(os.path.join(V, "tools", "claims.d", "*.json"))):
+    claims.update(json.load(open(f)))
 props = [json.loads(l) for l in open(os.path.join(V, "properties.jsonl"))]
 baseline = json.load(open("/root/.vp/BASELINE.json"))["cmd"]
 hooks_commits = claims.get("_fix_commits", [])
@@ -26,7 +29,7 @@ for p in props:
     })
 m = {
     "version": 1,
-    "setup_cmd": "cd /verif/coq && coq_makefile -f _CoqProject -o Makefile && timeout 3000 make -j16 && /verif/tools/gate.sh",
+    "setup_cmd": "/verif/tools/mkcoqproject.sh && cd /verif/coq && timeout 3000 make -j16 && /verif/tools/gate.sh",
     "hooks": {"guard": "E2NIEE_PANDAPOWER_VERIF",
               "enable": "export E2NIEE_PANDAPOWER_VERIF=1 (exported by ./check; no source hook is present, fault injection is external via monkeypatch/sys.settrace)",
               "baseline_off_cmd": baseline.replace("--junitxml=<file>", "--junitxml=/tmp/verif_baseline.junit.xml"),
